@@ -17,7 +17,7 @@ RULE = ("each case: a tree of 1-8 real directories and up to 20 other children; 
         "Non-trivial = the tree has a write-capable child at depth >=2 and the same client walked it with both caps; distinct by whole case.")
 LEVEL_TEXT = "Random trees and walk orders against an explicit authority table; leak detection by substring scan of what a read-cap holder can obtain."
 ASSUMPTIONS = ["the walking client keeps references to the nodes it has seen (otherwise the weak node cache is always empty)", "file children are never dereferenced (only their caps matter)", "the AES encryption of the rw-cap slot is not attacked; the scan looks for cleartext caps and keys"]
-REQUIRED_CLASSES = ["depth>=2-writecap", "same-client-rw-then-ro", "same-client-ro-then-rw", "fresh-ro", "unknown-rw", "mdmf-dir", "imm-dir", "ro-link"]
+REQUIRED_CLASSES = ["entry-repacked-by-second-gateway", "blacklisted-child", "depth>=2-writecap", "same-client-rw-then-ro", "same-client-ro-then-rw", "fresh-ro", "unknown-rw", "mdmf-dir", "imm-dir", "ro-link"]
 BUDGET = {"quick": 900, "thorough": 7200}
 LEAF = ["lit", "chk", "ssk", "ssk-ro", "mdmf", "mdmf-ro", "unknown-rw", "unknown-ro", "unknown-imm", "ro-link", "imm-dir"]
 
@@ -38,7 +38,9 @@ def tree(depth):
 @st.composite
 def cases(draw):
     return {"root": draw(st.sampled_from(["sdmf", "mdmf"])), "tree": draw(tree(2)), "walk": draw(st.sampled_from(["fresh-ro", "rw-then-ro", "rw-then-ro", "ro-then-rw"])),
-            "sched": draw(st.lists(st.integers(0, 5), max_size=20))}
+            "sched": draw(st.lists(st.integers(0, 5), max_size=20)),
+            # a second gateway of the write-cap holder, configured with an access blacklist naming some of the children, edits the metadata of entries (which re-packs them)
+            "gateway2": draw(st.none() | st.fixed_dictionaries({"blacklist": st.lists(st.integers(0, 30), max_size=6), "touch": st.lists(st.integers(0, 30), min_size=1, max_size=8)}))}
 
 
 def run_shard(spec, ctx):
@@ -123,6 +125,33 @@ def run_case(case, ctx):
                         pass
         build(root, case["tree"], ())
         writecaps.add(root.get_uri())
+        if case.get("gateway2"):
+            from allmydata.blacklist import Blacklist
+            import os
+            rwkids = sorted((p_, rw_) for p_, rw_ in expect.items() if rw_ and not rw_.startswith(b"URI:FUTURE"))
+            w2 = g.add_client()
+            fn = os.path.join(g.basedir, "access.blacklist")
+            with open(fn, "wb") as f:
+                for bi in case["gateway2"]["blacklist"]:
+                    if rwkids:
+                        p_, rw_ = rwkids[bi % len(rwkids)]
+                        f.write(base32.b2a(uri.from_string(rw_).get_storage_index()) + b" prohibited by the operator\n")
+                        classes.add("blacklisted-child")
+            w2.nodemaker.blacklist = Blacklist(fn)
+            allkids = sorted(expect)
+            for ti in case["gateway2"]["touch"]:
+                if not allkids:
+                    break
+                p_ = allkids[ti % len(allkids)]
+                parent_cap = root.get_uri() if len(p_) == 1 else expect.get(p_[:-1])
+                if not parent_cap:
+                    continue
+                pn = w2.nodemaker.create_from_cap(parent_cap)
+                if not hasattr(pn, "set_metadata_for"):
+                    continue                 # the parent itself is prohibited on this gateway
+                r = g.run(pn.set_metadata_for(p_[-1], {"touched-by": "gateway2"}))
+                if r[0] == "ok":
+                    classes.add("entry-repacked-by-second-gateway")
         root_rw, root_ro = root.get_uri(), root.get_readonly_uri()
         desc = "root=%s tree=%r walk=%s" % (case["root"], case["tree"], case["walk"])
 
